@@ -83,8 +83,11 @@ var poutShort = []string{"Ok", "Insufficient", "NotReady", "CreateErr", "Generic
 	"wrap>Insufficient", "wrap>NotReady", "Insufficient>CreateErr", "wrap>CreateErr", "CreateErr>wrap>NotReady", "wrap>CreateErr>wrap>Insufficient"}
 
 // createError builds the error chain of a shape.
-func createError(shape string) error {
+func createError(shape string, long bool) error {
 	var err error = errors.New("injected create failure")
+	if long {
+		err = errors.New("injected create failure " + strings.Repeat("x", 400))
+	}
 	for i := len(shape) - 1; i >= 0; i-- {
 		switch shape[i] {
 		case 'I':
@@ -126,7 +129,7 @@ func (p plan) hook() string {
 	return "HReady"
 }
 
-func (p plan) isOK() bool { return p == plan{} }
+func (p plan) isOK() bool { p.PoolPatch = 0; return p == plan{} }
 
 func (p plan) gallina() string {
 	if p.isOK() {
@@ -175,6 +178,7 @@ func (p plan) faults() []string {
 	}
 	add("term", p.Term)
 	add("unfin", p.Unfin)
+	add("pool_patch", p.PoolPatch)
 	return f
 }
 
@@ -182,6 +186,11 @@ func (p plan) faults() []string {
 
 type cfgT struct {
 	Managed, Startup, Ext, Hook, Pool bool
+	// harness-only dimensions (the model's behaviour does not depend on them; the observations do)
+	Orphan  bool // nodepool label present but no owner reference to the NodePool
+	ZeroReq bool // a zero-quantity request for a resource the node never reports
+	Taints  bool // spec.taints non-empty (synced onto the node)
+	LongMsg bool // generic provider errors carry a 400-byte message
 }
 
 type consts struct{ TTL, LT, RT int64 }
@@ -194,12 +203,13 @@ func (k cfgT) gallina(ks consts) string {
 // ---------------------------------------------------------------- the world
 
 const (
-	claimName = "claim"
-	nodeName  = "node-main"
-	dupName   = "node-zdup"
-	poolName  = "pool"
-	extRes    = "example.com/gpu"
-	startupK  = "example.com/startup"
+	claimName   = "claim"
+	nodeName    = "node-main"
+	dupName     = "node-zdup"
+	poolName    = "pool"
+	extRes      = "example.com/gpu"
+	startupK    = "example.com/startup"
+	claimTaintK = "example.com/claim-taint"
 )
 
 type world struct {
@@ -227,6 +237,7 @@ type world struct {
 	createWithoutFinalizer bool
 	createShapes           []string
 	listHit                map[string]bool
+	poolPatchHit           bool
 	hookHit                bool
 	unexpected             []string
 }
@@ -398,6 +409,31 @@ func (s *slot) funcs() interceptor.Funcs {
 				}
 				return w.write(w.plan.Status, &w.real.Status, "EStatus", claimName, do)
 			}
+			if _, ok := obj.(*v1.NodePool); ok && sub == "status" {
+				w.poolPatchHit = true
+				if k := w.plan.PoolPatch; k != wOk {
+					// the code ignores NotFound here and returns every other error exactly like a failed Get
+					if k != wNotFound {
+						var realised *int
+						switch callerFile() {
+						case "registration.go":
+							realised = &w.real.PoolReg
+						case "liveness.go":
+							realised = lo.Ternary(w.occ["pool_live"] <= 1, &w.real.PoolLive1, &w.real.PoolLive2)
+						}
+						if realised != nil {
+							*realised = k
+							for i := len(w.effs) - 1; i >= 0; i-- {
+								if strings.HasPrefix(w.effs[i], "EPool") {
+									w.effs[i] = strings.SplitN(w.effs[i], " ", 2)[0] + " " + wrNames[k]
+									break
+								}
+							}
+						}
+					}
+					return injected(k, poolName)
+				}
+			}
 			return do()
 		},
 		Delete: func(ctx context.Context, cl client.WithWatch, obj client.Object, opts ...client.DeleteOption) error {
@@ -506,7 +542,7 @@ func (p *prov) Create(ctx context.Context, nc *v1.NodeClaim) (*v1.NodeClaim, err
 		w.unexpectedCall("Create for another UID")
 	}
 	if o != 0 {
-		return nil, createError(createShapes[o])
+		return nil, createError(createShapes[o], w.k.LongMsg)
 	}
 	id := p.made
 	p.made++
@@ -589,8 +625,18 @@ func newWorld(sl *slot, k cfgT, ks consts) *world {
 	nc.Status = v1.NodeClaimStatus{}
 	nc.CreationTimestamp = metav1.NewTime(w.t0)
 	nc.Labels = map[string]string{}
+	nc.Labels["verif/claim-label"] = "x"
+	nc.Annotations = map[string]string{"verif/claim-annotation": "y"}
+	if k.Taints {
+		nc.Spec.Taints = []corev1.Taint{{Key: claimTaintK, Effect: corev1.TaintEffectNoSchedule}}
+	}
 	if k.Pool {
 		nc.Labels[v1.NodePoolLabelKey] = poolName
+	}
+	if k.Pool && k.Orphan {
+		nc.OwnerReferences = []metav1.OwnerReference{{APIVersion: object.GVK(pool).GroupVersion().String(), Kind: object.GVK(pool).Kind, Name: pool.Name, UID: "some-other-pool-uid"}}
+	}
+	if k.Pool && !k.Orphan {
 		nc.OwnerReferences = []metav1.OwnerReference{{APIVersion: object.GVK(pool).GroupVersion().String(), Kind: object.GVK(pool).Kind, Name: pool.Name, UID: pool.UID}}
 	}
 	gvk := object.GVK(nodeClass)
@@ -601,6 +647,9 @@ func newWorld(sl *slot, k cfgT, ks consts) *world {
 	nc.Spec.Resources.Requests = corev1.ResourceList{corev1.ResourceCPU: resource.MustParse("1")}
 	if k.Ext {
 		nc.Spec.Resources.Requests[extRes] = resource.MustParse("1")
+	}
+	if k.ZeroReq {
+		nc.Spec.Resources.Requests["example.com/never-reported"] = resource.MustParse("0")
 	}
 	if k.Startup {
 		nc.Spec.StartupTaints = []corev1.Taint{{Key: startupK, Effect: corev1.TaintEffectNoSchedule}}
@@ -669,6 +718,27 @@ type opT struct {
 	Plan *plan  `json:"plan,omitempty"`
 }
 
+// taints the code treats as ephemeral (scheduling.KnownEphemeralTaints and the readiness.k8s.io/ prefix); the last
+// entry has a known key with an effect that is NOT in the list and must not block initialization
+var ephKinds = []corev1.Taint{
+	{Key: corev1.TaintNodeNotReady, Effect: corev1.TaintEffectNoSchedule},
+	{Key: corev1.TaintNodeNotReady, Effect: corev1.TaintEffectNoExecute},
+	{Key: corev1.TaintNodeUnreachable, Effect: corev1.TaintEffectNoSchedule},
+	{Key: "node.cloudprovider.kubernetes.io/uninitialized", Effect: corev1.TaintEffectNoSchedule, Value: "true"},
+	{Key: "readiness.k8s.io/verif-rule", Effect: corev1.TaintEffectNoSchedule},
+	{Key: corev1.TaintNodeUnreachable, Effect: corev1.TaintEffectPreferNoSchedule},
+}
+
+func isEphKey(k string) bool {
+	return lo.ContainsBy(ephKinds, func(t corev1.Taint) bool { return t.Key == k })
+}
+
+func (w *world) hasEph(n *corev1.Node) bool {
+	return lo.ContainsBy(n.Spec.Taints, func(t corev1.Taint) bool {
+		return lo.ContainsBy(ephKinds[:len(ephKinds)-1], func(e corev1.Taint) bool { return e.Key == t.Key && e.Effect == t.Effect })
+	})
+}
+
 func (w *world) hasTaint(n *corev1.Node, key string) bool {
 	return lo.ContainsBy(n.Spec.Taints, func(t corev1.Taint) bool { return t.Key == key })
 }
@@ -720,7 +790,16 @@ func (w *world) apply(o opT) (string, []string, string) {
 		return "(NodeAppear " + kit.GBool(o.B) + ")", nil, "QNone"
 	case "NReady":
 		w.updateNode(func(n *corev1.Node) {
-			n.Status.Conditions = []corev1.NodeCondition{{Type: corev1.NodeReady, Status: lo.Ternary(o.B, corev1.ConditionTrue, corev1.ConditionFalse)}}
+			switch {
+			case o.B:
+				n.Status.Conditions = []corev1.NodeCondition{{Type: corev1.NodeReady, Status: corev1.ConditionTrue}}
+			case o.D == 1:
+				n.Status.Conditions = []corev1.NodeCondition{{Type: corev1.NodeReady, Status: corev1.ConditionUnknown}}
+			case o.D == 2:
+				n.Status.Conditions = []corev1.NodeCondition{{Type: corev1.NodeMemoryPressure, Status: corev1.ConditionFalse}}
+			default:
+				n.Status.Conditions = []corev1.NodeCondition{{Type: corev1.NodeReady, Status: corev1.ConditionFalse}}
+			}
 		})
 		return "(NReady " + kit.GBool(o.B) + ")", nil, "QNone"
 	case "NStartupOff":
@@ -729,13 +808,14 @@ func (w *world) apply(o opT) (string, []string, string) {
 		})
 		return "NStartupOff", nil, "QNone"
 	case "NEph":
+		eph := o.B && o.D != len(ephKinds)-1
 		w.updateNode(func(n *corev1.Node) {
-			n.Spec.Taints = lo.Reject(n.Spec.Taints, func(t corev1.Taint, _ int) bool { return t.Key == corev1.TaintNodeNotReady })
+			n.Spec.Taints = lo.Reject(n.Spec.Taints, func(t corev1.Taint, _ int) bool { return isEphKey(t.Key) })
 			if o.B {
-				n.Spec.Taints = append(n.Spec.Taints, corev1.Taint{Key: corev1.TaintNodeNotReady, Effect: corev1.TaintEffectNoSchedule})
+				n.Spec.Taints = append(n.Spec.Taints, ephKinds[o.D%len(ephKinds)])
 			}
 		})
-		return "(NEph " + kit.GBool(o.B) + ")", nil, "QNone"
+		return "(NEph " + kit.GBool(eph) + ")", nil, "QNone"
 	case "NExt":
 		w.updateNode(func(n *corev1.Node) {
 			if o.B {
@@ -912,10 +992,12 @@ func (w *world) nodeG() string {
 		ext = true
 	}
 	synced := lo.Contains(n.Finalizers, v1.TerminationFinalizer) &&
-		lo.ContainsBy(n.OwnerReferences, func(o metav1.OwnerReference) bool { return string(o.UID) == w.uid })
+		lo.ContainsBy(n.OwnerReferences, func(o metav1.OwnerReference) bool { return string(o.UID) == w.uid }) &&
+		n.Labels["verif/claim-label"] == "x" && n.Annotations["verif/claim-annotation"] == "y" &&
+		n.Labels[corev1.LabelInstanceTypeStable] == "verif-type" && (!w.k.Taints || w.hasTaint(n, claimTaintK))
 	return fmt.Sprintf("(Some (mkNode %d%%nat %s %s %s %s %s %s %s %s %s))", pid,
 		kit.GBool(w.hasTaint(n, v1.UnregisteredTaintKey)), kit.GBool(reg), kit.GBool(ini), kit.GBool(ready),
-		kit.GBool(w.hasTaint(n, startupK)), kit.GBool(w.hasTaint(n, corev1.TaintNodeNotReady)), kit.GBool(ext),
+		kit.GBool(w.hasTaint(n, startupK)), kit.GBool(w.hasEph(n)), kit.GBool(ext),
 		kit.GBool(synced), kit.GBool(n.DeletionTimestamp != nil))
 }
 
